@@ -28,11 +28,13 @@ theorem C10_registerBlocks_step (tpl : Bytes) (nodes : List Node) (D : List (Byt
     k+1 ≥ 2 makes k transfers through `.extends` and then renders the BASE template's nodes in a context
     that holds the same variables and a block table mapping every name `nm` to exactly
     `defsOf chain nm` (most derived first) — behind whatever the starting context had registered
-    (nothing, for a top-level render).  Afterwards the caller's context (with its own registrations) is restored. -/
+    (nothing, for a top-level render).  Afterwards the caller's context (with its own registrations) is restored.
+    The starting context is ARBITRARY — macros, enclosing scopes: the statement also covers a chain whose most
+    derived template was reached through an `include` (the base then sees the includer's scopes, `chainCtx.parents`). -/
 theorem C10_registerBlocks_spec (E : Env) (vars : List (Bytes × Val)) (p q : Bytes × List Node)
     (rest : List (Bytes × List Node)) (st : St) (f : Nat)
     (hc : ChainOK E vars (p :: q :: rest))
-    (hv : st.ctx.vars = vars) (hm : st.ctx.macros = []) (hp : st.ctx.parents = []) :
+    (hv : st.ctx.vars = vars) :
     run E (f + (rest.length + 2)) (.root p.1) st =
         restoreCtx (regSt p.1 p.2 st).ctx
           (renderNodes E (run E f) (lastTpl q rest).1 (lastTpl q rest).2
@@ -40,7 +42,7 @@ theorem C10_registerBlocks_spec (E : Env) (vars : List (Bytes × Val)) (p q : By
     (chainCtx E (p :: q :: rest) st.ctx).vars = vars ∧
     ∀ nm, (getKV nm (chainCtx E (p :: q :: rest) st.ctx).blockDefs).getD [] =
             (getKV nm st.ctx.blockDefs).getD [] ++ defsOf (p :: q :: rest) nm :=
-  ⟨chain_walk E vars rest p q st f hc hv hm hp, hv, fun nm => regAll_get _ _ nm⟩
+  ⟨chain_walk E vars rest p q st f hc hv, hv, fun nm => regAll_get _ _ nm⟩
 
 /-- the chain of length 1: a template without `extends` renders its own nodes over its own definitions -/
 theorem C10_registerBlocks_spec_single (E : Env) (go : Go) (p : Bytes × List Node) (st : St)
@@ -251,7 +253,7 @@ theorem C10_substitution (E : Env) (vars : List (Bytes × Val)) (p q : Bytes × 
         st'.ctx.blockDefs = st.ctx.blockDefs) := by
   refine ⟨?_, rfl, fun nm => ?_, fun tpl nodes st o st' h => (C10_frame E f tpl nodes st h).1⟩
   · simp only [renderTop, hc.1]
-    rw [← hf, chain_walk E vars rest p q { ctx := { vars := vars } } f hc rfl rfl rfl]
+    rw [← hf, chain_walk E vars rest p q { ctx := { vars := vars } } f hc rfl]
     cases renderNodes E (run E f) (lastTpl q rest).1 (lastTpl q rest).2
         { ctx := chainCtx E (p :: q :: rest) { vars := vars } } with
     | error e => rfl
